@@ -235,11 +235,17 @@ func (r *vfRTree) closestNamedAncestor(i int) int {
 
 func vfLookupExprs() [][]byte {
 	var exprs [][]byte
+	bodies := []string{"", "AAAA", "BBBB", "CCCC", "AAAABBBB", "AAAAAAAA", "BBBBAAAA", "AAAACCCC", "AAAABBBBAAAA", "AAAAAAAAAAAA",
+		"\x2eAAAABBBB", "\x2eAAAAAAAA", "\x2f\x03AAAABBBBAAAA", "\x2f\x02AAAAAAAA", "AAAA\x2eBBBB",
+		"A", "AB", "ABC", "AAAAB", "AAAABB", "AAAABBB", "\x2eAAAA", "\x2e", "\x2f\x02AAAA", "AAAA^BBBB", "AAAA\\"}
+	// too-short names that are proper prefixes of names that exist, alone, behind embedded prefix bytes and as the last segment
+	for _, t := range []string{"AA", "AAA", "B", "BB", "BBB"} {
+		bodies = append(bodies, t, "\x2e"+t, "\x2f\x02"+t, "\x2e\x2e"+t, "AAAA"+t, "AAAA\x2e"+t, "\x2eAAAA"+t, "\x2f\x02AAAA"+t, "BBBB"+t, "AAAAAAAA"+t)
+	}
+	bodies = append(bodies, "\x2e\x2e\x2e\x2e", "AAAA\x2e", "AAAA\x2f\x02", "\x2fAAA", "\x00AAA", "\x00AAAA")
 	for _, pre := range []string{"", "\\", "^", "^^", "^^^^"} {
-		for _, s := range []string{"", "AAAA", "BBBB", "CCCC", "AAAABBBB", "AAAAAAAA", "BBBBAAAA", "AAAACCCC", "AAAABBBBAAAA", "AAAAAAAAAAAA",
-			"\x2eAAAABBBB", "\x2eAAAAAAAA", "\x2f\x03AAAABBBBAAAA", "\x2f\x02AAAAAAAA", "AAAA\x2eBBBB",
-			"A", "AB", "ABC", "AAAAB", "AAAABB", "AAAABBB", "\x2eAAAA", "\x2e", "\x2f\x02AAAA", "AAAA^BBBB", "AAAA\\"} {
-			exprs = append(exprs, []byte(pre+s))
+		for _, b := range bodies {
+			exprs = append(exprs, []byte(pre+b))
 		}
 	}
 	return exprs
